@@ -41,8 +41,9 @@ class MixedSetup:
     """kind 'elem': test and trial function on FunctionSpace(mesh, MixedElement(subs));
     kind 'mfs' : TestFunctions/TrialFunctions of MixedFunctionSpace(V_0, ..)."""
 
-    def __init__(self, kind, shapes, cell="triangle", trial_shapes=None):
+    def __init__(self, kind, shapes, cell="triangle", trial_shapes=None, trial_degree=1):
         self.kind, self.shapes, self.cell = kind, list(shapes), cell
+        self.trial_degree = trial_degree
         self.trial_shapes = list(trial_shapes) if trial_shapes is not None else list(shapes)
         self.mesh = uflgen.mesh(cell)
         c = self.mesh.ufl_cell()
@@ -50,8 +51,9 @@ class MixedSetup:
         self.h = ufl.Coefficient(ufl.FunctionSpace(self.mesh, LagrangeElement(c, 1, ())))
         if kind == "elem":
             self.W = ufl.FunctionSpace(self.mesh, MixedElement([sub_element(c, s) for s in self.shapes]))
-            self.Wu = (self.W if trial_shapes is None else
-                       ufl.FunctionSpace(self.mesh, MixedElement([sub_element(c, s) for s in self.trial_shapes])))
+            self.Wu = (self.W if trial_shapes is None and trial_degree == 1 else
+                       ufl.FunctionSpace(self.mesh, MixedElement([sub_element(c, s, trial_degree)
+                                                                  for s in self.trial_shapes])))
             self.v = ufl.TestFunction(self.W)
             self.u = ufl.TrialFunction(self.Wu)
             self.vs = list(ufl.split(self.v))
@@ -75,11 +77,13 @@ class MixedSetup:
                 return "Y"
             return "m" + "".join(s(y) for y in x) if isinstance(x, list) else ("s" if not x else "v" * len(x))
         t = "" if self.trial_shapes == self.shapes else "_" + "".join(s(x) for x in self.trial_shapes)
+        if self.trial_degree != 1:
+            t = "_" + "".join(s(x) for x in self.trial_shapes) + f"d{self.trial_degree}"
         return f"{self.kind}_{''.join(s(x) for x in self.shapes)}{t}"
 
     def describe(self):
         return {"kind": self.kind, "test_sub_shapes": self.shapes, "trial_sub_shapes": self.trial_shapes,
-                "cell": self.cell}
+                "trial_degree": self.trial_degree, "cell": self.cell}
 
 
 # ------------------------------------------------------------------------------------------------
